@@ -184,57 +184,62 @@ theorem inbound_pause_exact {s : Inb} (h : IReach s) :
   have hi := ireach_inv (by decide) (by decide) h
   exact ⟨hi.exact, hi.alt⟩
 
-/-- Inbound, full statement: for every sequence of pause/resume/stop requests, local opens,
-    `subchannel_closed` calls (of paused or unpaused subchannels, any number of them paused at the
-    time) and connection changes, the TCP transport of the current connection — also of a replacement
-    connection — has last been told "pause" exactly while some subchannel has an outstanding pause
-    request (`g.w`: asked, and neither resumed, stopped nor closed since); nobody in `g.w` is closed.
-    So closing one paused subchannel never resumes the connection under another that still wants the
-    pause, and a subchannel closed while paused does not keep the connection paused.
-    Environment (`iopOK`): the application of a closed subchannel does not call `pauseProducing` again. -/
-theorem inbound_open_exact {s : Inb} {g : Ghost} (h : IReachW s g) :
-    (∀ c, s.conn = some c → (lastPaused c s.log = true ↔ g.w ≠ [])) ∧
-    (∀ sc, sc ∈ g.w → sc ∉ g.cl) ∧ altOK s.log = true := by
-  obtain ⟨hw, hcl⟩ := want_eq h
-  obtain ⟨hex, halt⟩ := inbound_pause_exact h.reach
-  refine ⟨fun c hc => ?_, hcl, halt⟩
-  rw [hex c hc]
+/-- Inbound, full statement.  For every sequence of: application pause/resume/stop requests (made through
+    the real `SubChannel` methods, at top level or from inside `connectionMade`/`dataReceived` while a
+    pre-listen backlog is handed over), local opens, the peer's OPEN / DATA / CLOSE (also before the
+    application listens for the subprotocol: parked OPENs, queued DATA and CLOSE), `listen`, local
+    `loseConnection()`/`loseWriteConnection()`, `subchannel_closed` and connection changes —
+    the TCP transport of the current connection, also of a replacement connection, has last been told
+    "pause" exactly while some application has an outstanding pause request: `(G s.log).w`, computed from
+    what the applications did and were told only (asked, and neither resumed, stopped nor closed since);
+    nobody in it is closed.  In particular the connection is never paused (or resumed) on the subchannel's
+    own account, whatever backlog it holds.
+    Environment (`EnvOK`): the application of a closed subchannel does not call `pauseProducing` again. -/
+theorem inbound_open_exact {s : Inb} (h : IReach s) (henv : EnvOK s.log) :
+    (∀ c, s.conn = some c → (lastPaused c s.log = true ↔ (G s.log).w ≠ [])) ∧
+    (∀ sc, sc ∈ (G s.log).w → sc ∉ (G s.log).cl) ∧ altOK s.log = true := by
+  have hi := ireach_inv (by decide) (by decide) h
+  refine ⟨fun c hc => ?_, want_not_closed s.log henv, hi.alt⟩
+  rw [hi.exact c hc]
   constructor
   · intro hne h0
     obtain ⟨sc, hsc⟩ := List.exists_mem_of_ne_nil _ hne
-    have := (hw sc).2 hsc
+    have := (hi.want sc).2 hsc
     rw [h0] at this; cases this
   · intro hne h0
     obtain ⟨sc, hsc⟩ := List.exists_mem_of_ne_nil _ hne
-    have := (hw sc).1 hsc
+    have := (hi.want sc).1 hsc
     rw [h0] at this; cases this
 
 /-- a resume (or stop) request of the application is forwarded to `Inbound` in every state of its
     SubChannel machine — `unconnected`, `open_*`, `closing` (after a local `loseConnection()`),
     `write_closed`/`read_closed` (half-closed), even `closed`: the subchannel leaves
     `_paused_subchannels`, and if it was the last one the current connection is told to resume.
-    (`SubChannel.resumeProducing` being an unguarded forwarder is pinned by `skeleton_agrees`.) -/
+    (`SubChannel.resumeProducing` being an unguarded forwarder is pinned by `skeleton_agrees_subchannel`.) -/
 theorem resume_forwarded_in_every_state (s : Inb) (sc : Nat) (st : Gen.SubChannel.State) (half : Bool) :
     let s0 := s.setSc sc (st, half)
-    istep s0 (.resume sc) = s0.discard sc ∧ istep s0 (.stopProducing sc) = s0.discard sc ∧
+    istep s0 (.resume sc) = s0.appResume sc ∧ istep s0 (.stopProducing sc) = s0.appResume sc ∧
     (istep s0 (.resume sc)).pausedSc = sDel sc s.pausedSc ∧
     (∀ c, s.conn = some c → s.pausedSc ≠ [] → sDel sc s.pausedSc = [] →
-      (istep s0 (.resume sc)).log = .tResume c :: s.log) := by
+      (istep s0 (.resume sc)).log = .tResume c :: .unreq sc :: s.log) := by
   refine ⟨rfl, rfl, ?_, ?_⟩
-  · simp only [istep]; rw [discard_pausedSc]; rfl
+  · simp only [istep, Inb.appResume]; rw [discard_pausedSc]; rfl
   · intro c hc hne hlast
     have hf : dcpForwardsResume = true := by decide
     have hne' : s.pausedSc.isEmpty = false := by simpa using hne
-    simp [istep, Inb.discard, Inb.setSc, hc, hne', hlast, Inb.connResume, hf]
+    simp [istep, Inb.appResume, Inb.discard, Inb.setSc, hc, hne', hlast, Inb.connResume, hf]
 
-/-- a local `loseConnection()` / `loseWriteConnection()` never changes who holds a pause: either
-    nothing about `_paused_subchannels`/`_open_subchannels` changes (the subchannel is `closing` or
-    `write_closed`, still open until the peer's CLOSE), or it completes the close and the subchannel
-    leaves both sets in the same step (generated table: only a row with `close_subchannel` can do that) -/
-theorem local_close_keeps_pause (s : Inb) (sc : Nat) :
-    (EffSame s (istep s (.lose sc)) ∨ EffClosed s (istep s (.lose sc)) sc) ∧
-    (EffSame s (istep s (.loseW sc)) ∨ EffClosed s (istep s (.loseW sc)) sc) :=
-  local_close_effect s sc
+/-- the pre-listen backlog: DATA (and CLOSE) for a subchannel nobody listens for yet only grows the
+    subchannel's own queue — `_paused_subchannels`, the transports and the applications' requests are
+    untouched, however much is queued -/
+theorem backlog_touches_nothing (s : Inb) (sc : Nat) (half : Bool)
+    (hst : s.scState sc = (Gen.SubChannel.init, half)) (ho : sc ∈ s.openSc) :
+    (istep s (.rdata sc)).pausedSc = s.pausedSc ∧ (istep s (.rdata sc)).log = s.log ∧
+    (istep s (.rclose sc)).pausedSc = s.pausedSc ∧ (istep s (.rclose sc)).log = s.log := by
+  have t1 : Gen.SubChannel.table Gen.SubChannel.init .remote_data = some (.unconnected, [.queue_remote_data]) := rfl
+  have t2 : Gen.SubChannel.table Gen.SubChannel.init .remote_close = some (.unconnected, [.queue_remote_close]) := rfl
+  simp only [istep, ho, if_true, scInput, hst, t1, t2, runOuts]
+  exact ⟨rfl, rfl, rfl, rfl⟩
 
 /-- the call skeletons of the anchored methods, as regenerated from the working tree on this run,
     are the ones the model's operations were written against (a dropped, added or re-ordered call
@@ -305,6 +310,27 @@ theorem skeleton_agrees_pull :
     Gen.Skel.skeleton "PullToPush.resumeProducing" = [("-", "_coopTask.resume")] := by
   decide
 
+/-- the pre-listen path, from the working tree: queueing DATA / CLOSE in a SubChannel that has no protocol yet
+    makes no call at all (in particular none to the manager's pause/resume), handing the backlog over is the
+    `for … remote_data` loop and the queued CLOSE and nothing else, and the demultiplexer connects a listener by
+    `buildProtocol`, `_set_protocol`, `makeConnection`, `_deliver_queued_data` in that order -/
+theorem skeleton_agrees_backlog :
+    Gen.Skel.skeleton "SubChannel.queue_remote_data" = [] ∧
+    Gen.Skel.skeleton "SubChannel.queue_remote_close" = [] ∧
+    Gen.Skel.skeleton "SubChannel._deliver_queued_data" = [("for", "self.remote_data"), ("if", "self.remote_close")] ∧
+    Gen.Skel.skeleton "SubChannel.signal_dataReceived" = [("-", "_protocol.dataReceived")] ∧
+    Gen.Skel.skeleton "SubChannel._set_protocol" =
+      [("-", "IHalfCloseableProtocol.providedBy"), ("if", "self.connect_protocol_half"), ("else", "self.connect_protocol_full")] ∧
+    Gen.Skel.skeleton "SubchannelDemultiplex._connect" =
+      [("-", "factory.buildProtocol"), ("-", "t._set_protocol"), ("-", "p.makeConnection"), ("-", "t._deliver_queued_data")] ∧
+    Gen.Skel.skeleton "SubchannelDemultiplex._got_open" = [("if", "self._connect"), ("else/if", "UnexpectedSubprotocol")] ∧
+    Gen.Skel.skeleton "SubchannelDemultiplex.register" = [("if", "ValueError"), ("except", "deque"), ("while", "self._connect")] ∧
+    Gen.Skel.skeleton "Inbound.handle_data" = [("if", "DataForMissingSubchannelError"), ("-", "sc.remote_data")] ∧
+    Gen.Skel.skeleton "Inbound.handle_open" =
+      [("if", "DuplicateOpenError"), ("-", "SubchannelAddress"), ("-", "SubChannel"),
+       ("try", "_manager._subprotocol_factories._got_open"), ("except", "_manager.send_close")] := by
+  decide
+
 /-! ## the environment hypothesis is needed (current code) -/
 
 /-- one producer object on two subchannels, then unregister one: `_check_invariants` fails
@@ -359,31 +385,40 @@ example : ex6.stack = [.pull 1 [.failWrite, .write true], .ops []] ∧ ex6.o.scp
 /-- Inbound: a subchannel pauses, the connection is replaced, the new one is paused at once -/
 def iex : Inb := istep (istep (istep (istep {} .use) (.pause 7)) .stop) .use
 example : IReach iex := IReach.step _ (IReach.step _ (IReach.step _ (IReach.step _ IReach.init)))
-example : iex.conn = some 2 ∧ iex.pausedSc = [7] ∧ iex.log = [.tPause 2, .tPause 1] := by decide
+example : iex.conn = some 2 ∧ iex.pausedSc = [7] ∧ sigs iex.log = [.tPause 2, .tPause 1] := by decide
 
 /-- hypotheses of `inbound_open_exact`: two open subchannels paused, one of them closed, the
     connection replaced — the other one still holds the pause … -/
 def iexW : Inb := istep (istep (istep (istep (istep (istep (istep (istep {} .use) (.opn 1)) (.opn 2)) (.pause 1)) (.pause 2)) (.close 1)) .stop) .use
-example : ∃ g, IReachW iexW g ∧ g.w = [2] ∧ g.cl = [1] ∧ iexW.conn = some 2 ∧ iexW.openSc = [2] ∧
-    iexW.log = [.tPause 2, .tPause 1] :=
-  ⟨_, IReachW.step .use (IReachW.step .stop (IReachW.step (.close 1) (IReachW.step (.pause 2) (IReachW.step (.pause 1)
-    (IReachW.step (.opn 2) (IReachW.step (.opn 1) (IReachW.step .use IReachW.init trivial) trivial) trivial) (by decide)) (by decide))
-    trivial) trivial) trivial, by decide, by decide, by decide, by decide, by decide⟩
+example : IReach iexW := IReach.step _ (IReach.step _ (IReach.step _ (IReach.step _ (IReach.step _ (IReach.step _
+    (IReach.step _ (IReach.step _ IReach.init)))))))
+example : EnvOK iexW.log ∧ (G iexW.log).w = [2] ∧ (G iexW.log).cl = [1] ∧ iexW.conn = some 2 ∧ iexW.openSc = [2] ∧
+    sigs iexW.log = [.tPause 2, .tPause 1] := by decide
 
 /-- … and the only paused subchannel closed: the connection is resumed (the defect fixed by bec439a) -/
 def iexC : Inb := istep (istep (istep (istep {} .use) (.opn 1)) (.pause 1)) (.close 1)
-example : iexC.pausedSc = [] ∧ iexC.log = [.tResume 1, .tPause 1] := by decide
+example : iexC.pausedSc = [] ∧ sigs iexC.log = [.tResume 1, .tPause 1] := by decide
 
 /-- pause → loseConnection() (subchannel `closing`, still open) → resume: the resume is honoured;
     then the peer's CLOSE closes it -/
 def iexL : Inb := istep (istep (istep (istep (istep {} .use) (.opn 1)) (.pause 1)) (.lose 1)) (.resume 1)
 example : (istep (istep (istep (istep {} .use) (.opn 1)) (.pause 1)) (.lose 1)).scState 1 = (.closing, false) ∧
-    iexL.openSc = [1] ∧ iexL.pausedSc = [] ∧ iexL.log = [.tResume 1, .tPause 1] ∧
+    iexL.openSc = [1] ∧ iexL.pausedSc = [] ∧ sigs iexL.log = [.tResume 1, .tPause 1] ∧
     (istep iexL (.rclose 1)).openSc = [] := by decide
 
 /-- half-close: pause → loseWriteConnection() (`write_closed`) → peer's CLOSE closes it while paused: released -/
 def iexH : Inb := istep (istep (istep (istep (istep {} .use) (.opnHalf 1)) (.pause 1)) (.loseW 1)) (.rclose 1)
 example : iexH.openSc = [] ∧ iexH.pausedSc = [] ∧ iexH.scState 1 = (.closed, true) ∧
-    iexH.log = [.tResume 1, .tPause 1] := by decide
+    sigs iexH.log = [.tResume 1, .tPause 1] := by decide
+
+/-- the pre-listen backlog: the peer OPENs subchannel 1 and sends three DATA before anybody listens (nothing is
+    paused, `backlog_touches_nothing`); the application then listens with a protocol that pauses at its first
+    `dataReceived`: during the hand-over its pause is recorded and the connection paused, and it stays paused
+    after the hand-over (the subchannel does not resume on its own account) -/
+def iexB : Inb := istep (istep (istep (istep (istep (istep {} .use) (.ropen 1)) (.rdata 1)) (.rdata 1)) (.rdata 1)) (.listen 2)
+example : (istep (istep (istep (istep (istep {} .use) (.ropen 1)) (.rdata 1)) (.rdata 1)) (.rdata 1)).pendOf 1 = (3, false) ∧
+    sigs (istep (istep (istep (istep (istep {} .use) (.ropen 1)) (.rdata 1)) (.rdata 1)) (.rdata 1)).log = [] ∧
+    iexB.pausedSc = [1] ∧ (G iexB.log).w = [1] ∧ EnvOK iexB.log ∧ sigs iexB.log = [.tPause 1] ∧
+    iexB.scState 1 = (.open_full, false) ∧ iexB.pendOf 1 = (0, false) := by decide
 
 end WV.Props.C15
